@@ -15,9 +15,14 @@ turns into a violation — a silent drift between source and model is never tole
 """
 import os, re, sys
 
-REPO = os.environ.get("VERIF_REPO", "/repo")
 ROOT = os.path.dirname(os.path.dirname(os.path.abspath(__file__)))
+sys.path.insert(0, ROOT)
+from vlib.core import REPO
 OUT = os.path.join(ROOT, "coq", "Generated", "LayoutFacts.v")
+# last good facts (committed): refreshed by save_snapshot() only after a successful translation from the
+# registered /repo whose proofs check; used as the model's facts when the translation fails, so that the
+# run can go on and SEARCH for a concrete failing input instead of stopping.
+SNAP = os.path.join(ROOT, "coq", "Layout", "FactsSnapshot.v")
 
 
 class FactsError(Exception):
@@ -210,6 +215,30 @@ def generate(write=True):
         if not (os.path.exists(OUT) and open(OUT).read() == text):
             open(OUT, "w").write(text)
     return dict(ir, **cf), text
+
+
+def _write_if_changed(path, text):
+    os.makedirs(os.path.dirname(path), exist_ok=True)
+    if not (os.path.exists(path) and open(path).read() == text):
+        open(path, "w").write(text)
+
+
+def prepare():
+    """Translate; on failure install the last good snapshot as Generated/LayoutFacts.v.
+    Returns (ok, error text or None)."""
+    try:
+        generate()
+        return True, None
+    except Exception as e:      # FactsError (shape changed) or any parsing accident
+        if os.path.exists(SNAP):
+            _write_if_changed(OUT, open(SNAP).read())
+        return False, "%s: %s" % (type(e).__name__, e)
+
+
+def save_snapshot():
+    """Called by a check after translation AND proofs succeeded on the registered tree."""
+    if REPO == "/repo" and os.path.exists(OUT):
+        _write_if_changed(SNAP, open(OUT).read())
 
 
 if __name__ == "__main__":
